@@ -43,4 +43,50 @@ def seedsNx (t : Table) : List Int :=
 def stopsNx (t : Table) : List Int :=
   (t.filter fun n => n.label == .branch || n.label == .root).map (·.id)
 
+/-- `_classify_nodes_old`, networkx branch: `g.degree` counts in- AND out-edges; `ends` = degree 1,
+`branches` = degree > 2; then `type = "slab"`, ends ↦ `end`, branches ↦ `branch`, `parent_id < 0` ↦ `root`
+(later assignments override earlier ones). -/
+def classifyOldNxNode (t : Table) (n : Node) : Label :=
+  let deg := childCount t n.id + (if n.parent < 0 then 0 else 1)
+  let l0 := Label.slab
+  let l1 := if deg = 1 then Label.end_ else l0
+  let l2 := if deg > 2 then Label.branch else l1
+  if n.parent < 0 then Label.root else l2
+
+/-! ### `geodesic_matrix(from_=…)`: which rows, in which order, under which label -/
+
+/-- Remove repeated ids (first occurrence of each distinct value of the *tail* wins; only the set matters). -/
+def dedup : List Int → List Int
+  | [] => []
+  | x :: xs => if xs.contains x then dedup xs else x :: dedup xs
+
+/-- `np.unique(from_)`: sorted, duplicate-free. -/
+def npUnique (l : List Int) : List Int := sortedInts (dedup l)
+
+/-- fastcore branch: `ix = from_` (after `np.unique`): rows in ascending id order. -/
+def geoRowLabelsFastcore (_t : Table) (from_ : List Int) : List Int := npUnique from_
+
+/-- igraph / networkx branches: `indices = np.where(np.isin(nodeList, from_))[0]; ix = nodeList[indices]`:
+rows in node-table order. -/
+def geoRowLabelsPython (t : Table) (from_ : List Int) : List Int := (ids t).filter fun i => (npUnique from_).contains i
+
+/-- The labelled rows of the matrix: every back-end computes the row of source `a` as the distances from
+`a` to all nodes in table order. -/
+def geoLabelled (t : Table) (len : Int → Int → Nat) (directed : Bool) (limit : Option Nat) (rows : List Int) :
+    List (Int × List (Option Nat)) :=
+  rows.map fun a => (a, (ids t).map fun b => applyLimit limit (geo t len directed a b))
+
+/-! ### `reroot_skeleton`: the path from the new root to the old root -/
+
+/-- igraph `g.get_shortest_paths(v, to=w)` in the directed child→parent graph: the root path of `v` up to
+`w` when `w` lies on it, `[]` (unreachable) otherwise. -/
+def shortestOut (t : Table) (v w : Int) : List Int := (uptoIncl w (rootPath t v)).getD []
+
+/-- igraph branch: paths to ALL roots, `[p for p in path if p][0]` (`none`: `IndexError`). -/
+def rerootPathIgraph (t : Table) (r : Int) : Option (List Int) :=
+  ((roots t).map fun rt => shortestOut t r rt).find? fun p => !p.isEmpty
+
+/-- networkx branch: `path = [new_root]; while parent is not None: path.append(parent); parent = next(g.successors(parent), None)`. -/
+def rerootPathNx (t : Table) (r : Int) : List Int := rootPath t r
+
 end Navis.Forest
